@@ -31,7 +31,7 @@ CHECKS = {
             'Exact size, nesting, farthest-point and maximal-priority clauses are checked on every consecutive pair of the chain for '
             'every curve x distance x ordering; the online monitor reads the real stack at each loop iteration and asserts the popped '
             'entry has the maximal stored priority.',
-            'priorities recomputed with the saved primitives on equal-valued slices (bit-identical); first split exempt',
+            'priorities recomputed with the saved primitives on equal-valued slices (bit-identical) AND cross-checked against long-double definitions of the three ordering scores; first split exempt',
             'DESIGN.md section 4 C05'),
     'C06': ('runtime postcondition monitors on grdp / mp_grdp / min_point_rdp against the recomputed fixed-size chain and fresh-cache global cost',
             'Each result is compared for exact equality with S_k* (least k whose fresh-cache global cost is on the accepting side), '
@@ -55,7 +55,7 @@ CHECKS = {
             'For every call: subset/ordering, exactly one member per recomputed cluster, the survivor attains the maximal ranking score '
             '(NaN scores are violations), smooth_ranking agrees with an independent model on well-conditioned windows; hull mode: at most '
             'one member per cluster and none from clusters without a lower-hull point; corner variant: survivor maximises the triangle score.',
-            'linkages (C11) and graham_scan_lower (C18) are taken as the reference for clusters and hull',
+            'clusters and hull are recomputed with the saved linkage / graham_scan_lower, whose results are themselves run through the decision monitor of C11 and the chain monitor of C18',
             'DESIGN.md section 4 C12'),
     'C03': ('runtime postcondition monitor result == corner on generated exact two-slope elbows, all detector configurations + loop monitor',
             'Every generated elbow (exactly representable coordinates, every orientation class) is run through curvature, DFDT, Menger, '
@@ -67,7 +67,7 @@ CHECKS = {
             'Chains: shape, on-or-above/below and strict-turn clauses with exact rational orientation tests, equality with the brute-force '
             'chain on integer/dyadic curves; graham_scan on distinct integer point sets (general position and degenerate): completes, no '
             'repeats, all extreme vertices, only boundary points, exact clockwise cycle in general position.',
-            'float curves accept either decision within the orientation noise floor; graham_scan exercised on integer points only',
+            'float curves accept either decision within the orientation noise floor; graham_scan exercised on integer points only; one open known finding: int64 curves whose orientation products exceed 2^63 (classified apart: the float64 copy of the same values gets a correct chain)',
             'DESIGN.md section 4 C18'),
     'C07': ('runtime postcondition monitors on rdp.mapping / compute_removed_points; exhaustive small-scope enumeration of index structures + random large structures + every simplifier\'s own (reduced, removed) pair',
             'mapping(I, reduced, removed) == reduced[I] is checked on EVERY index structure with n <= 8 (quick) / n <= 9 (thorough) - every '
@@ -101,16 +101,17 @@ CHECKS = {
     'C19': ('runtime postcondition monitors on cm / mae / mse / rmse / rmspe / accuracy / f1score / mcc against executable greedy-matching and nearest-neighbour models, incl. a large-count class',
             'Confusion-matrix identities and greedy TP, error metrics against the nearest-neighbour model for the four strategies, sqrt/zero/'
             'non-negativity laws, score ranges and perfect-detection laws on small curves AND on confusion matrices of 1.4e5..1e6 points '
-            '(where int64 products overflow); thorough also runs cm on the bundled web2 trace.',
+            '(where int64 products overflow) and on int64 curves of magnitude 1e10 with int64 expected points; thorough also runs cm on the bundled web2 trace.',
             'near-tie nearest-neighbour and threshold decisions (IEEE vs rational disagreement) get no numeric verdict',
             'DESIGN.md section 4 C19'),
-    'C20': ('cross-cutting purity / determinism / representation monitors over ~190 entry-point configurations + load-time link monitor on live function objects + sys.monitoring RAISE monitor + reach coverage',
+    'C20': ('cross-cutting purity / determinism (immediate and after a call history) / representation monitors over ~200 entry-point configurations + load-time link monitor on live function objects + sys.monitoring RAISE monitor + reach coverage',
             'Argument digests before/after every call (mutable defaults included), repeated-call bitwise equality, C vs Fortran vs strided-view '
             'vs int64 representations (index outputs identical, floats within 8 ulp + cancellation floor), and resolution of every global name, '
             'module/class attribute chain, intra-package and uts call signature, tuple-unpacking arity and local import against the live '
             'objects; link-type exceptions raised in package frames are recorded by a RAISE monitor; line coverage of the call-everything '
-            'workload is reported.',
-            'one open known finding (evaluation.compute_global_segment_cost); attribute access on values and calls through local aliases only on reached paths',
+            'workload is reported. A history pass per scenario (every entry point on degenerate inputs, then every first call repeated) checks '
+            'that no call leaves process-wide or module-level state behind that changes a later identical call.',
+            'open known findings: evaluation.compute_global_segment_cost (link) and the int64 wrap-around of convex_hull._ccw at magnitude ~1e10 (representation); attribute access on values and calls through local aliases only on reached paths',
             'DESIGN.md section 4 C20'),
     'C08': ('stage-by-stage runtime monitor of the demo pipeline (values flowing between the public calls) + loop-bound monitor, on synthetic families and the bundled traces',
             'simplify -> multi_knee(reduced curve) -> filter_worst_knees -> filter_corner_knees -> filter_clusters -> mapping is re-created for '
